@@ -988,6 +988,11 @@ static C04Res c05Once(const Instance& I, const ParamSet& cfg, int loadMode, uint
                   R.set("invcol.canary" + sfx, "getBasisInverseColReal wrote outside [0,numRows)");
                   return R;
                }
+            for(int i = 0; i < m; i++) if(!std::isfinite(buf[CAN + i]))
+               {
+                  R.set("invcol.nonfinite" + sfx, "getBasisInverseColReal returned a non-finite entry");
+                  return R;
+               }
             std::vector<Q> col(m);
             Q cn = 0;
             for(int i = 0; i < m; i++)
@@ -1042,6 +1047,11 @@ static C04Res c05Once(const Instance& I, const ParamSet& cfg, int loadMode, uint
             for(int c = 0; c < CAN; c++) if(buf[c] != 12345.678 || buf[m + CAN + c] != 12345.678)
                {
                   R.set("invrow.canary" + sfx, "getBasisInverseRowReal wrote outside [0,numRows)");
+                  return R;
+               }
+            for(int i = 0; i < m; i++) if(!std::isfinite(buf[CAN + i]))
+               {
+                  R.set("invrow.nonfinite" + sfx, "getBasisInverseRowReal returned a non-finite entry");
                   return R;
                }
             std::vector<Q> row(m);
@@ -1110,6 +1120,11 @@ static C04Res c05Once(const Instance& I, const ParamSet& cfg, int loadMode, uint
                R.set("mult.failed" + sfx, "multBasis returned false");
                return R;
             }
+            for(int i = 0; i < m; i++) if(!std::isfinite(vec[i]))
+               {
+                  R.set("mult.nonfinite" + sfx, "multBasis returned a non-finite entry");
+                  return R;
+               }
             Q worst = 0;
             for(int i = 0; i < m; i++) if(qabs(qd(vec[i]) - Bv[i]) > worst) worst = qabs(qd(vec[i]) - Bv[i]);
             double ratio = dq(worst) / (1e-8 * (1.0 + dq(bnorm) * dq(vn)));
@@ -1131,6 +1146,11 @@ static C04Res c05Once(const Instance& I, const ParamSet& cfg, int loadMode, uint
                R.set("multT.failed" + sfx, "multBasisTranspose returned false");
                return R;
             }
+            for(int i = 0; i < m; i++) if(!std::isfinite(vec[i]))
+               {
+                  R.set("multT.nonfinite" + sfx, "multBasisTranspose returned a non-finite entry");
+                  return R;
+               }
             Q worst = 0;
             for(int i = 0; i < m; i++) if(qabs(qd(vec[i]) - BTv[i]) > worst) worst = qabs(qd(vec[i]) - BTv[i]);
             double ratio = dq(worst) / (1e-8 * (1.0 + dq(bnorm) * dq(vn)));
@@ -1159,6 +1179,11 @@ static C04Res c05Once(const Instance& I, const ParamSet& cfg, int loadMode, uint
                   R.set("solve.failed" + sfx, "getBasisInverseTimesVecReal returned false");
                   return R;
                }
+               for(int i = 0; i < m; i++) if(!std::isfinite(sol[i]))
+                  {
+                     R.set("solve.nonfinite" + sfx, "getBasisInverseTimesVecReal returned a non-finite entry");
+                     return R;
+                  }
                Q sn = 0, worst = 0;
                std::vector<Q> sq(m);
                for(int i = 0; i < m; i++)
